@@ -113,6 +113,14 @@ func (r *mwRun) changesStep(s MWStep, where string) error {
 		return nil
 	}
 	i, j := s.Ref%len(r.snaps), s.Mask%len(r.snaps)
+	if s.Cut == 1 {
+		// far-apart pair: an early version against a late one (more rows deleted, changed and added in between)
+		third := len(r.snaps)/3 + 1
+		i, j = s.Ref%third, len(r.snaps)-1-(s.Mask%third)
+		if s.Ref%2 == 1 {
+			i, j = j, i
+		}
+	}
 	a, b := r.snaps[i], r.snaps[j]
 	if len(parseVersionList(a.Version)) == 0 || len(parseVersionList(b.Version)) == 0 {
 		return nil
@@ -215,10 +223,10 @@ func genWithExtra(t *rapid.T, g mwGenCfg, ops []string, every int) MWCase {
 		out = append(out, s)
 		if rapid.IntRange(0, every-1).Draw(t, "extra") == 0 {
 			out = append(out, MWStep{Op: rapid.SampledFrom(ops).Draw(t, "extraop"),
-				Ref: rapid.IntRange(0, 1000).Draw(t, "i"), Mask: rapid.IntRange(0, 1000).Draw(t, "j")})
+				Ref: rapid.IntRange(0, 1000).Draw(t, "i"), Mask: rapid.IntRange(0, 1000).Draw(t, "j"), Cut: int64(rapid.IntRange(0, 1).Draw(t, "far"))})
 		}
 	}
-	out = append(out, MWStep{Op: ops[0], Ref: 0, Mask: 1 << 20})
+	out = append(out, MWStep{Op: ops[0], Ref: 0, Mask: 1 << 20, Cut: 1})
 	c.Steps = out
 	return c
 }
@@ -234,9 +242,17 @@ func TestC11_Versions(t *testing.T) {
 	checkRapid(t, st, func(rt *rapid.T) MWCase { return genWithExtra(rt, g, []string{"reread", "frontier"}, 6) }, runMW)
 }
 
+func c12Gen() mwGenCfg {
+	g := c11Gen("c12")
+	g.wVacuum = 1 // versions on both sides of a vacuum (markers purged, trees re-shaped)
+	g.wDel = 4
+	g.keyChoices = []int{6, 12, 20}
+	return g
+}
+
 func TestC12_Changes(t *testing.T) {
 	st := newStats(t, "C12", "TestC12_Changes", "the histories of C11 (updates, deletes, re-inserts, merges; entries_per_node 2-4 so versions are multi-node and share subtrees); ordered pairs (A,B) of recorded versions incl. A after B, A=B and versions of different writers; s3db_changes(from=A,to=B) must return only rows of B, each once, and every row of B that is absent from or different in A, without failing; in fault mode the same query is repeated with the p-th storage request of the diff failing, for every p: it must fail or still satisfy both directions; non-trivial = a pair with rows deleted, changed and added between A and B on multi-node trees")
-	g := c11Gen("c12")
+	g := c12Gen()
 	checkRapid(t, st, func(rt *rapid.T) MWCase { return genWithExtra(rt, g, []string{"changes", "changes", "changes-fault"}, 4) }, runMW)
 }
 
